@@ -40,7 +40,8 @@ def handleKz (args : List String) : Option String :=
   match hd with
   | [op, nn, p, k] =>
     let nn := parseNat nn; let p := parseInt p; let k := parseNat k
-    let x := ints c1; let y := ints c2
+    let x := if c1 == ["@probe"] then Array.ofFn (n := nn) (fun i => ((i.val + 1 : Nat) : Int)) else ints c1
+    let y := ints c2
     let o := i64Ops
     match op with
     | "add" => some (joinInts (Coeffs.add o nn x y))
